@@ -14,6 +14,8 @@ R8:<idiom>  one std iterator idiom replaced by a call to a helper in contracts/s
     body IS the idiom (external_body) and whose spec is assumed; pattern holes are bound to the
     real sub-expressions.  Idioms are listed in IDIOMS below.
 R16 `for _ in A .. B`  ->  `for _ in verif_itN: A .. B`   (names the ghost iterator so invariants can refer to it)
+R17 `Vec::with_capacity(n)` / `vec![x; n]` / `HashMap::with_capacity(n)` -> wrapper fns (body = the std call) whose
+    ghost precondition is the C13 allowance; any other sized allocation left in an extracted fn => undecided
 R18 `E as <int>` -> `#[verifier::truncate] (E as <int>)`  (annotation: casts wrap, exactly as in Rust)
 R9  `for PAT in A .. B {` kept; `for _ in ..` kept (Verus supports ranges); no-op marker
 R10 `e?` on Option inside fn returning Option untouched; marker only
@@ -156,6 +158,8 @@ def r8(text, arg, what):
     idiom = arg
     if idiom == 'identity_try_into':
         return r8_identity_try_into(text, what)
+    if idiom in SIMPLE_IDIOMS:
+        return SIMPLE_IDIOMS[idiom](text, what)
     if idiom not in IDIOMS:
         raise AnchorError(f'{what}: unknown idiom {idiom}')
     pat, builder = IDIOMS[idiom]
@@ -250,6 +254,83 @@ def r18(text, arg, what):
     return text, cnt
 
 
+def r2(text, arg, what):
+    """`Err(K)?`  ->  `(return Err(::core::convert::From::from(K)))`   (the language's own desugaring of `?` on an
+    Err value; Verus loses the converted error's value through `?`, the explicit form keeps `kind`)"""
+    m = rp.mask(text)
+    cnt, pos = 0, 0
+    while True:
+        mm = re.compile(r'\bErr\s*\(').search(m, pos)
+        if not mm:
+            break
+        op = mm.end() - 1
+        cl = rp.match_bracket(m, op)
+        k = cl + 1
+        while k < len(m) and m[k] in ' \t\n':
+            k += 1
+        if k < len(m) and m[k] == '?':
+            inner = text[op + 1:cl]
+            new = f'(return Err(::core::convert::From::from({inner})))'
+            text = text[:mm.start()] + new + text[k + 1:]
+            m = rp.mask(text)
+            pos = mm.start() + len(new)
+            cnt += 1
+        else:
+            pos = mm.end()
+    if cnt == 0:
+        raise AnchorError(f'{what}: R2 requested but no `Err(..)?` found')
+    return text, cnt
+
+
+def r17(text, arg, what):
+    """allocation sites -> wrappers with the C13 allowance as precondition (bodies are the std calls).
+    arg: spec expression for the number of reply bytes in scope (ghost), default 0"""
+    recv = arg if arg else '0int'
+    total = 0
+    m = rp.mask(text)
+    pos = 0
+    rx = re.compile(r'\b(Vec|HashMap)\s*::\s*with_capacity\s*\(|\bvec!\s*\[')
+    while True:
+        mm = rx.search(m, pos)
+        if not mm:
+            break
+        op = mm.end() - 1
+        cl = rp.match_bracket(m, op)
+        inner = text[op + 1:cl]
+        if mm.group(1):
+            fn = 'verif_vec_with_capacity' if mm.group(1) == 'Vec' else 'verif_hashmap_with_capacity'
+            new = f'{fn}({inner}, Ghost(({recv}) as int))'
+        else:
+            parts = rp.split_top(inner, ';')
+            if len(parts) != 2:
+                pos = mm.end()
+                continue
+            new = f'verif_vec_from_elem({parts[0]}, {parts[1]}, Ghost(({recv}) as int))'
+        text = text[:mm.start()] + new + text[cl + 1:]
+        m = rp.mask(text)
+        pos = mm.start() + len(new)
+        total += 1
+    if total == 0:
+        raise AnchorError(f'{what}: R17 requested but no allocation site found')
+    return text, total
+
+
+ALLOC_PATTERNS = [r'\bwith_capacity\s*\(', r'\bvec!\s*\[[^\]]*;', r'\.reserve(?:_exact)?\s*\(', r'\.repeat\s*\(', r'\.resize\s*\(']
+
+
+def unrouted_allocations(text):
+    """allocation sites whose size is an expression, still present after the rewrites (must be none)"""
+    m = rp.mask(text)
+    out = []
+    for p in ALLOC_PATTERNS:
+        for mm in re.finditer(p, m):
+            line = text[text.rfind('\n', 0, mm.start()) + 1:text.find('\n', mm.end())].strip()
+            if 'verif_vec_with_capacity' in line or 'verif_hashmap_with_capacity' in line or 'verif_vec_from_elem' in line:
+                continue
+            out.append(line)
+    return out
+
+
 def r16(text, arg, what):
     """name the ghost iterator of `for _ in A .. B` loops (Verus annotation syntax `for _ in it: A .. B`)"""
     m = rp.mask(text)
@@ -265,7 +346,80 @@ def r16(text, arg, what):
     return ''.join(out), cnt
 
 
-RULES = {'R1': r1, 'R3': r3, 'R6': r6, 'R8': r8, 'R16': r16, 'R18': r18}
+def r8_simple(name, rx, build):
+    def f(text, what):
+        m = rp.mask(text)
+        cnt = 0
+        pos = 0
+        while True:
+            mm = rx.search(m, pos)
+            if not mm:
+                break
+            new, a, b = build(text, m, mm)
+            if new is None:
+                pos = mm.end()
+                continue
+            text = text[:a] + new + text[b:]
+            m = rp.mask(text)
+            pos = a + len(new)
+            cnt += 1
+        if cnt == 0:
+            raise AnchorError(f'{what}: R8:{name} requested but the idiom does not occur')
+        return text, cnt
+    return f
+
+
+def _build_extend(kind):
+    def b(text, m, mm):
+        op = mm.end() - 1
+        cl = rp.match_bracket(m, op)
+        arg = text[op + 1:cl].strip()
+        isref = arg.startswith('&')
+        if (kind == 'ref') != isref:
+            return None, 0, 0
+        rs = _hole_expr_backward(text, m, mm.start())
+        recv = text[rs:mm.start()].strip()
+        fn = 'idiom_extend_ref' if isref else 'idiom_extend_vec'
+        return f'{fn}(&mut {recv}, {arg})', rs, cl + 1
+    return b
+
+
+def _build_concat2(text, m, mm):
+    # `[A, B].concat()` : mm matches `].concat()`; find the matching '['
+    cb = mm.start()
+    depth, j = 0, cb
+    while j >= 0:
+        if m[j] == ']':
+            depth += 1
+        elif m[j] == '[':
+            depth -= 1
+            if depth == 0:
+                break
+        j -= 1
+    parts = rp.split_top(text[j + 1:cb])
+    if len(parts) != 2:
+        return None, 0, 0
+    return f'idiom_concat2({parts[0]}, {parts[1]})', j, mm.end()
+
+
+def _build_sort_by_field(text, m, mm):
+    rs = _hole_expr_backward(text, m, mm.start())
+    recv = text[rs:mm.start()].strip()
+    return f'idiom_sort_by_{mm.group("f")}(&mut {recv})', rs, mm.end()
+
+
+SIMPLE_IDIOMS = {
+    'extend_vec': r8_simple('extend_vec', re.compile(r'\.\s*extend\s*\('), _build_extend('vec')),
+    'extend_ref': r8_simple('extend_ref', re.compile(r'\.\s*extend\s*\('), _build_extend('ref')),
+    'concat2': r8_simple('concat2', re.compile(r'\]\s*\.\s*concat\s*\(\s*\)'), _build_concat2),
+    # X.sort_by(|a, b| a.F.cmp(&b.F))  -> idiom_sort_by_F(&mut X)   (helper defined next to the element type)
+    'sort_by_field': r8_simple('sort_by_field', re.compile(
+        r'\.\s*sort_by\s*\(\s*\|\s*(?P<a>\w+)\s*,\s*(?P<b>\w+)\s*\|\s*(?P=a)\s*\.\s*(?P<f>\w+)\s*\.\s*cmp\s*\(\s*&\s*(?P=b)\s*\.\s*(?P=f)\s*\)\s*\)'),
+        _build_sort_by_field),
+}
+
+
+RULES = {'R1': r1, 'R3': r3, 'R6': r6, 'R8': r8, 'R16': r16, 'R18': r18, 'R2': r2, 'R17': r17}
 
 
 def apply(text, uses, what):
